@@ -242,3 +242,6 @@ def run(ctx, rep):
             f = pf.get(bi, TOP)
             rep.check("C03.md5", "MD5Match only when stored==computed", fact_match(f, "cmp", "^Eq$", "finalize|md5", "md5|finalize"), vb.loc(st["sp"]),
                       "on the equality edge", "MD5Match reachable without digest equality: %s" % fact_str(f))
+    from rules import C17
+    from okimplies import OkImplies as _OK
+    C17.decoder_depth_rules(F, _OK(F, ctx.cg()), rep, "C03")
